@@ -57,10 +57,15 @@ CHECKS = {
    technique="TLA+ transcription of Go's operator typing and constant folding (Ops.tla) + TLC as exhaustive evaluator with laws + one implementation test per expression point",
    design_ref="DESIGN.md section 5 C01"),
  "C02": dict(level="model_checking",
-   text='Same engine: a point that is valid Go (Ops.tla = go/types) and that the builder rejects, or on which it dies with a run-time fault, is a spurious rejection, keyed by operator class and operand pattern.',
-   note='Two engines: expressions (Ops.tla: unary/binary operators, shifts, conversions over a pool of 22 operands; int8/uint8 carry range arithmetic because TLC integers are 32-bit) and statements (Decls.tla: :=, =, var, return over single values, multi-value calls and comma-ok forms, with redeclaration; constant blocks with iota and implicit repetition); C03 additionally compares selector result types and recorder objects on the lookups of Select.tla. Calls with arity/variadic/ellipsis, composite literals and statement heads are not yet predicted (exercised untyped by C10/C16). Known findings are exact class-key sets per root cause (known/*.keys). Trusted: TLC, go/types (types.Eval validates Ops.tla on every point: S = T else exit 2).',
-   technique="TLA+ transcription of Go's operator typing and constant folding (Ops.tla) + TLC as exhaustive evaluator with laws + one implementation test per expression point",
+   text='Same engine: a point that is valid Go (Ops.tla = go/types) and that the builder rejects, or on which it dies with a run-time fault, is a spurious rejection, keyed by operator class and operand pattern. Statement level: every valid function body of Flow.tla (statement order, nesting, clauses, labels, break/continue/goto incl. forward goto) must be accepted without diagnostic and come out of Package.WriteTo with the same typed canonical tree (positions, redundant parentheses, import names removed; every identifier annotated with the entity go/types resolves it to) as an independent rendering; Headers.tla transcribes the composite-literal ambiguity rule of statement headers and places every expression tree of its grammar in every statement context (14 contexts): the emitted text must parse back to the same tree.',
+   note='Flow.tla validity and Headers.tla Ambiguous are validated against go/types / go/parser on every point (S = T else exit 2). Two engines: expressions (Ops.tla: unary/binary operators, shifts, conversions over a pool of 22 operands; int8/uint8 carry range arithmetic because TLC integers are 32-bit) and statements (Decls.tla: :=, =, var, return over single values, multi-value calls and comma-ok forms, with redeclaration; constant blocks with iota and implicit repetition); C03 additionally compares selector result types and recorder objects on the lookups of Select.tla. Calls with arity/variadic/ellipsis are predicted by C06, generics by C07. Known findings are exact class-key sets per root cause (known/*.keys). Trusted: TLC, go/types, go/parser.',
+   technique="TLA+ specs (Ops.tla, Decls.tla, Flow.tla, Headers.tla) + TLC exhaustive enumeration + replay on the real CodeBuilder, typed canonical-tree comparison of Package.WriteTo output with an independent rendering",
    design_ref="DESIGN.md section 5 C02"),
+ "C06": dict(level="model_checking",
+   text="Overload.tla models the candidate loop of matchFuncCall step by step (Backup, Enter: arity + inference, Step: one argument against one parameter with the in-place rewrites T_Init conversion / generic-function instantiation / overloaded-value narrowing, Fail with restore, Succeed) and TLC checks FirstApplicable, NoResidue and ResultType against the functional definition on every (family, call) point (families of 1-2 of 21 signatures incl. variadic, generic, rewriting ones; calls of 0-2 of 12 argument forms, f(xs...) form; thorough: triples, 3 arguments); with Restore = FALSE TLC must find a violation (vacuity guard, run every time). Every point is replayed on the real CodeBuilder in six realisations of the family (imported functions F__i, value-receiver methods, pointer-receiver methods, interface methods, XGoo_ explicit order with names in reverse lexical order, in-package NewOverloadFunc): rejection, chosen callee, emitted argument expressions and result type must equal the model's; metamorphic check against the single-candidate family of the chosen candidate.",
+   note="Go applicability and result type of the model are validated against go/types on every (signature, call) pair (S = T else exit 2). Generic or overloaded function values as arguments of generic candidates, overloaded operators and overloaded named-type casts are not in the fragment. The named deviation of the model (uninstantiated generic function accepted for an interface parameter) attributes KF-C06-1. Trusted: TLC, go/types.",
+   technique="TLA+ step model of the overload candidate loop + TLC invariants (sabotage guard) + replay of every point through six realisations on the real CodeBuilder, go/types cross-validation of the spec",
+   design_ref="DESIGN.md section 5 C06"),
  "C03": dict(level="model_checking",
    text='Same engine: on every point both parties accept, the type the builder reports for the result element is compared with the type Ops.tla (= go/types) assigns, untyped kinds included.',
    note='Two engines: expressions (Ops.tla: unary/binary operators, shifts, conversions over a pool of 22 operands; int8/uint8 carry range arithmetic because TLC integers are 32-bit) and statements (Decls.tla: :=, =, var, return over single values, multi-value calls and comma-ok forms, with redeclaration; constant blocks with iota and implicit repetition); C03 additionally compares selector result types and recorder objects on the lookups of Select.tla. Calls with arity/variadic/ellipsis, composite literals and statement heads are not yet predicted (exercised untyped by C10/C16). Known findings are exact class-key sets per root cause (known/*.keys). Trusted: TLC, go/types (types.Eval validates Ops.tla on every point: S = T else exit 2).',
